@@ -1679,3 +1679,13 @@ CONTROLS['C13'] += [
       "        agg_ids = [agg_uuid_map[member] for member in members\n                   if member in agg_uuid_map]\n        if not agg_ids:\n",
       "        known = [agg_uuid_map[u] for u in members if u in agg_uuid_map]\n        agg_ids = known\n        if not known:\n"),
 ]
+
+_EXC = ("        for arr in areq.resource_requests:\n            key = (arr.resource_provider.id, arr.resource_class)\n"
+        "            psum_res = self.psum_res_by_rp_rc[key]\n")
+CONTROLS['C02'] += [
+    M('c02-seed-no-final-check-under-isolate', RCX, _EXC,
+      "        if self.group_policy == 'isolate' or not self.multi_group_rcs:\n            return False\n" + _EXC,
+      'R2.1'),
+    B('c02-benign-skip-final-check-without-shared-classes', RCX, _EXC,
+      "        if not self.multi_group_rcs:\n            return False\n" + _EXC),
+]
